@@ -15,6 +15,16 @@ package internal
 //@   loop 1 invariant -1 <= rangeindex && rangeindex < len(kvs) || len(kvs) == 0
 //@   loop 1 invariant fresh(vals) && forall(j, 0, rangeindex + 1, has(vals, kvs[j].Key))
 //@   loop 2 invariant fresh(m) && forall(j, 0, rangeindex + 1, has(m, kvs[j].Key))
+// values of the snapshot are stored; what the listeners are told is the difference to the previous record: a key
+// that vanished or whose value changed is announced as deleted (with its OLD value), a key that is new or whose
+// value changed is announced as added (with its NEW value) - this is how changes made while the watch was down
+// reach the subscribers after a reload; every listener gets every announcement.
+//@   loop 1 iteration-ensures [first-record-holds-snapshot-values] vals[at_head(kvs[rangeindex + 1]).Key] == at_head(kvs[rangeindex + 1]).Val
+//@   loop 2 iteration-ensures [new-record-holds-snapshot-values] m[at_head(kvs[rangeindex + 1]).Key] == at_head(kvs[rangeindex + 1]).Val
+//@   loop 3 iteration-ensures [vanished-or-changed-announced-deleted] (len(remove) == at_head(len(remove)) + 1) == (!has(m, k) || m[k] != v) && (len(remove) == at_head(len(remove)) || len(remove) == at_head(len(remove)) + 1) && (len(remove) == at_head(len(remove)) + 1 ==> remove[at_head(len(remove))].Key == k && remove[at_head(len(remove))].Val == v)
+//@   loop 4 iteration-ensures [new-or-changed-announced-added] (len(add) == at_head(len(add)) + 1) == (!has(vals, k) || vals[k] != v) && (len(add) == at_head(len(add)) || len(add) == at_head(len(add)) + 1) && (len(add) == at_head(len(add)) + 1 ==> add[at_head(len(add))].Key == k && add[at_head(len(add))].Val == v)
+//@   loop 6 iteration-ensures [every-listener-told-of-the-addition] calls(l.OnAdd, kv) == 1 && calls(OnAdd) == 1
+//@   loop 8 iteration-ensures [every-listener-told-of-the-deletion] calls(l.OnDelete, kv) == 1 && calls(OnDelete) == 1
 // the record is a map built during this call (so nothing of the previous record survives in it) ...
 //@   ensures [record-replaced] has(c.values, key) && c.values[key] != nil && fresh(c.values[key])
 // ... and it holds every key of the snapshot
